@@ -44,7 +44,7 @@ TraceInit ==
     /\ active = TRUE /\ since = 0
     /\ svc = [s \in Sig |-> [st |-> "missing", price |-> 0]]
     /\ pending = {} /\ subs = {} /\ nsub = 0 /\ mempool = <<>>
-    /\ lastPoll = 0 /\ out = "init"
+    /\ lastPoll = 0 /\ down = FALSE /\ out = "init"
     /\ calm = FALSE /\ waited = [s \in Sig |-> 0] /\ rejSeen = FALSE
 
 ResetVars(c, st) ==
@@ -58,6 +58,7 @@ ResetVars(c, st) ==
     /\ st.pending = <<>> /\ st.subs = <<>> /\ st.mempool = <<>> /\ st.nsub = 0
     /\ pending' = {} /\ subs' = {} /\ nsub' = 0 /\ mempool' = <<>>
     /\ lastPoll' = st.lastPoll
+    /\ ~st.down /\ down' = FALSE
     /\ out' = "init"
     \* the script declares whether it stays within the timing assumptions; the exact conditions are re-checked
     /\ calm' = (c.live /\ \A s \in Sig : feeds'[s].iv > 0 => TimingOKp(par', feeds'[s].iv))
@@ -89,6 +90,7 @@ TTxResult == TxResult(Line.a.id, Line.a.r)
 TTick     == Tick(Line.a.dt)
 TSvc      == Svc(LSvc(Line.s))
 TSetFeeds == SetFeeds(LFeeds(Line.s))
+TEnv      == Env(Line.s.down)
 
 Act ==
     /\ ph = "act" /\ l <= Len(TraceLog)
@@ -98,6 +100,7 @@ Act ==
        ELSE CASE Line.e = "Tick"     -> TTick
               [] Line.e = "Svc"      -> TSvc
               [] Line.e = "SetFeeds" -> TSetFeeds
+              [] Line.e = "Env"      -> TEnv
               [] Line.e \notin Owned -> UNCHANGED vars
               [] Line.e = "Poll"     -> TPoll
               [] Line.e = "Bcast"    -> TBcast
@@ -113,6 +116,7 @@ Sync ==
     /\ LET st == Line.s IN
         /\ clk = st.clk /\ bt = st.bt /\ h = st.h /\ UNCHANGED <<clk, bt, h>>   \* the clocks are inputs
         /\ svc = LSvc(st) /\ feeds = LFeeds(st) /\ UNCHANGED <<svc, feeds>>     \* so are quotes and feed list
+        /\ down = st.down /\ UNCHANGED down                                    \* and the local prerequisites
         /\ st.extraFeeds = 0
         /\ Bind("upd", updT, updT', st.updT)
         /\ Bind("upd", updH, updH', st.updH)
@@ -126,6 +130,8 @@ Sync ==
         /\ Bind("pending", pending, pending', ToSet(st.pending))
         /\ Bind("subs", subs, subs', LSubs(st))
         /\ ("subs" \in Checked) => st.queued = 0      \* every hand-off was picked up by the submitter
+        \* a feeder key is in use exactly while a submitPrice runs (handed back on every exit)
+        /\ ("subs" \in Checked) => st.keysBusy = Cardinality(LSubs(st))
         /\ Bind("nsub", nsub, nsub', st.nsub)
         /\ Bind("mempool", mempool, mempool', LMem(st))
         /\ Bind("lastPoll", lastPoll, lastPoll', st.lastPoll)
